@@ -105,8 +105,10 @@ CLAIMS = {
                      "regenerated table. The XML tokenizer interpreter terminates with the same bound (TokIR/TermX.v: the flavour-specific "
                      "lemmas re-proved - discard_char through get_char, raw next() in eat(), xml's reference first state, tag-emitting "
                      "EOF arms, an EOF loop that continues after Script; Inst/InstTermX.v on the regenerated xml table: "
-                     "C04_xml_tokenizer_run_terminates / _end_terminates / C04_xml_driver_terminates); the xml no-panic theorem is not "
-                     "done. Not covered: the default mode with bulk reads over "
+                     "C04_xml_tokenizer_run_terminates / _end_terminates / C04_xml_driver_terminates) and is total too "
+                     "(TokIR/NoPanicX.v, C04_xml_tokenizer_total: xml's tag emission never switches the state and end() has no assert "
+                     "sites, so end() always answers done and every feed entry is done / script pause / encoding indicator / the "
+                     "driver model's limit 96; no condition on the sink). Not covered: the default mode with bulk reads over "
                      "the chunked queue (tied to the reference run by BulkSim only for regular runs). Tree builders, stack depth and "
                      "time are covered by the harness only (panic/abort/hang watch, queue-empty and single-EOF oracles, deep nesting).",
                 note=TOK_NOTE, tech="reflective Coq checks (EOF rank, char-ref states) + Coq termination proof of the tokenizer interpreter with explicit fuel bound (potential function, rank check on the regenerated table) + totality oracle incl. pathological inputs"),
